@@ -90,6 +90,14 @@ def render_check(rep, mod, fname, signed, ret_at_end, alphabets):
             g['digit_off'] = p.off
             return
         if i.id in rstores:
+            src_ = i.ops[0]
+            li_ = f.insts[src_.id] if src_.k == 'inst' else None
+            q_ = interp.val(st, li_.ops[0], f) if (li_ is not None and li_.op == 'load') else None
+            if not (isinstance(q_, PtrVal) and q_.obj == p.obj):
+                # a loop that fills the buffer from somewhere else (e.g. copies the digits out of a local array) is not the
+                # in-place reversal this rule describes: the content of the buffer is decided by c07_roundtrip (R-TEXT)
+                buf['foreign_fill'] = w
+                return
             lo, hi = Lin(sign_len(st)), g['nul_off'] - 1
             ok = st.cons.entails_le(lo, p.off) and st.cons.entails_le(p.off, hi)
             sink.inst('R-RENDER', fname, 'reversal-stays-inside-the-digits', ok, w,
@@ -175,6 +183,10 @@ def render_check(rep, mod, fname, signed, ret_at_end, alphabets):
         post += [dict(name='unsigned: no minus sign', when=['arg2 >= 2', 'arg2 <= 36'], then=['ghost_nminus_post == 0'])]
     run = Run7(it, [])
     run.run(f.name, spec7(setup=setup, post=post))
+    if buf.get('foreign_fill'):
+        rep.defer_broken('%s: the buffer is filled by a loop that does not reverse it in place (%s): R-RENDER does not apply to this '
+                         'form' % (fname, buf['foreign_fill']))
+        return
     import_obligations(rep, 'R-RENDER', it, run)
 
 
@@ -359,6 +371,8 @@ def dprint_dec(rep, mod):
     fname = 'debug_printdec_uint64'
     f = need(mod, fname)
     D = skeleton_rule(rep, f, fname, 0, ('const', 10))
+    if not D['rems']:
+        raise AnalysisBroken('%s: the digit loop computes no remainder (form not recognised)' % fname)
     L, ph, rem = D['loop'], D['phi'], D['rems'][0]
     stores = [i for b in L['blocks'] for i in b.insts if i.op == 'store' and depends_on(f, i.ops[0], rem)]
     if len(stores) != 1:
@@ -745,3 +759,6 @@ def run(rep, repo, tier):
     rep.floor('R-ATOL', 6)
     rep.floor('R-DPRINT', 60)
     rep.floor('R-VT100', 8)
+    import c07_roundtrip
+    c07_roundtrip.run_ext(rep, repo, tier)
+
